@@ -327,6 +327,38 @@ package environment
 // (for a critical task that takes the workflow, and through the watcher the environment, to ERROR - also in CONFIGURED),
 // and the run is stopped on its account only if the task is critical ("the same failures of a non-critical task never
 // change the environment's state").
+// C02 (a transition that fails leaves the environment in ERROR - also one the core requested itself): the STOP_ACTIVITY
+// fired when all tasks reported END_OF_STREAM, or when a critical task announced an internal error, is followed by
+// GO_ERROR when it fails (and by a forced ERROR when that is refused too), like a failed transition requested through
+// the API; a failure that is only logged leaves the environment RUNNING with tasks that did not stop
+//@ closure (*Manager).handleDeviceEvent #1
+//@   property C02
+//@   ghostvar nTry int = 0
+//@   ghostvar failed bool = false
+//@   ghostvar recovered bool = false
+//@   on call (*Environment).TryTransition : recovered = recovered || nTry >= 1 ; nTry = nTry + 1
+//@   on aftercall (*Environment).TryTransition when nTry == 1 : failed = result != nil
+//@   ensures failed ==> recovered
+//@ closure (*Manager).handleDeviceEvent #2
+//@   property C02
+//@   ghostvar nTry int = 0
+//@   ghostvar failed bool = false
+//@   ghostvar recovered bool = false
+//@   on call (*Environment).TryTransition : recovered = recovered || nTry >= 1 ; nTry = nTry + 1
+//@   on aftercall (*Environment).TryTransition when nTry == 1 : failed = result != nil
+//@   ensures failed ==> recovered
+//@ func (envs *Manager) stopActivityOrFail(env *Environment, why string)
+//@   property C02 C01
+//@   ghostvar tries int = 0
+//@   ghostvar firstErr bool = false
+//@   ghostvar lastErr bool = false
+//@   ghostvar forced bool = false
+//@   on call (*Environment).TryTransition : tries = tries + 1
+//@   on aftercall (*Environment).TryTransition : lastErr = (result != nil) ; firstErr = if tries == 1 then (result != nil) else firstErr
+//@   on call (*Environment).setState : assert tries == 2 && lastErr && arg1 == "ERROR" ; forced = true
+//@   ensures tries <= 2
+//@   ensures env != nil && firstErr ==> tries == 2 && (!lastErr || forced)
+
 //@ func (envs *Manager) handleDeviceEvent(evt event.DeviceEvent)
 //@   property C03
 //@   ghostvar isIntErr bool = false
